@@ -94,8 +94,8 @@ Lemma Qsum_map_nonneg {A} (f : A -> Q) (l : list A) : (forall a, In a l -> 0 <= 
 Proof.
   induction l as [|a r IH]; intro H; [unfold Qsum; cbn [map fold_right]; lra|].
   cbn [map]. rewrite Qsum_cons.
-  assert (0 <= f a) by (apply H; left; reflexivity).
-  assert (0 <= Qsum (map f r)) by (apply IH; intros b Hb; apply H; right; exact Hb). lra.
+  assert (Ha : 0 <= f a) by (apply H; left; reflexivity).
+  assert (Hr : 0 <= Qsum (map f r)) by (apply IH; intros b Hb; apply H; right; exact Hb). lra.
 Qed.
 
 (* ------------------------------------------------------------------ association lists *)
@@ -746,16 +746,7 @@ Qed.
 
 (* ------------------------------------------------------------------ one element of add_loop / remove_loop *)
 
-Definition add_step (L : labware) (i : nat) (v : Q) (oc : option composition) : labware :=
-  let v0 := vol_at L i in
-  let L1 := set_vols L (upd (lw_vols L) i (Qred (v0 + v))) in
-  match oc with
-  | Some c => write_composition L1 i (combine_composition v0 (well_composition_at L1 i) v c)
-  | None => L1
-  end.
 
-Definition rem_step (L : labware) (i : nat) (v : Q) : labware :=
-  set_vols L (upd (lw_vols L) i (Qred (vol_at L i - v))).
 
 Lemma add_loop_cons' L w x oc rest :
   add_loop L ((w, x, oc) :: rest) =
@@ -1088,7 +1079,7 @@ Proof.
   unfold flat_index, n_wells. cbn [fst snd]. unfold n_row_ids in Hr'.
   destruct (g_vrows (lw_geom L)) as [vr|].
   - destruct Hv as [H1 _]. rewrite H1. lia.
-  - assert (r < g_rows (lw_geom L))%nat by lia. nia.
+  - assert (Hrr : (r < g_rows (lw_geom L))%nat) by lia. nia.
 Qed.
 
 Lemma well_sum_add_step_other L i v oc j :
@@ -1276,8 +1267,6 @@ Proof.
   rewrite forallb_forall in E. exact E.
 Qed.
 
-Definition comps_ok (comps : option (list (option composition))) : Prop :=
-  match comps with Some cs => Forall ocomp_ok cs | None => True end.
 
 Lemma add_inv L wells vols label comps : mix_inv L -> comps_ok comps ->
   mix_inv (fst (add L wells vols label comps)).
@@ -1298,7 +1287,6 @@ Qed.
 
 (* ------------------------------------------------------------------ the state level *)
 
-Definition st_inv (s : state) : Prop := Forall mix_inv (st_lw s).
 
 Lemma st_inv_nth s k L : st_inv s -> nth_error (st_lw s) k = Some L -> mix_inv L.
 Proof. intros H E. unfold st_inv in H. rewrite Forall_forall in H. apply H. eapply nth_error_In. exact E. Qed.
@@ -1610,7 +1598,7 @@ Proof.
   rewrite vol_at_add_step by lia. rewrite Nat.eqb_refl, Qred_correct.
   destruct (Qeq_dec (vol_at L i + v) 0) as [Hz|Hnz].
   - unfold frac at 1. rewrite add_step_guard by assumption. fold (frac L k i).
-    assert (vol_at L i == 0) by lra. assert (v == 0) by lra. rewrite Hz, H, H1. ring.
+    assert (E0 : vol_at L i == 0) by lra. assert (Ev : v == 0) by lra. rewrite Hz, E0, Ev. ring.
   - rewrite add_step_frac_same by (try assumption; apply (comp_inv_frac L k i HCI)).
     field. exact Hnz.
 Qed.
@@ -1923,11 +1911,6 @@ Proof.
     destruct (reagent_distribution w args) as [w2 e2] end; exact HI3.
 Qed.
 
-Fixpoint items_amt (k : string) (items : list (string * xnum * option composition)) : Q :=
-  match items with
-  | [] => 0
-  | (_, x, oc) :: r => (match x, oc with XQ v, Some c => v * cget k c | _, _ => 0 end) + items_amt k r
-  end.
 
 (** an accepted [add_loop] of liquids of known composition adds exactly their component amounts *)
 Lemma add_loop_amount items k : forall L L', mix_inv L -> Forall aitem_ok items ->
@@ -2361,4 +2344,682 @@ Proof.
     assert (Hj : (r * cols + c < rows * cols)%nat) by nia.
     destruct (Hcol _ Hj) as [H0 H1]. rewrite real_ids_nth in H1 by assumption. split; assumption.
   - intros i Hi. rewrite En in Hi. exact (Hsum i Hi).
+Qed.
+
+(* ------------------------------------------------------------------ default component names *)
+
+Lemma append_inj_l (a b c : string) : (a ++ b)%string = (a ++ c)%string -> b = c.
+Proof.
+  induction a as [|x a IH]; cbn [String.append]; intro H; [exact H|].
+  injection H as H. apply IH. exact H.
+Qed.
+
+Lemma init_name_given name multi names w s :
+  assoc_get w names = Some (Some s) -> init_name name multi names w = s.
+Proof. intro H. unfold init_name. rewrite H. reflexivity. Qed.
+
+Lemma init_name_default name multi names w :
+  assoc_get w names = None \/ assoc_get w names = Some None ->
+  init_name name multi names w = if multi then (name ++ "." ++ w)%string else name.
+Proof. intros [H|H]; unfold init_name; rewrite H; reflexivity. Qed.
+
+(** the per-well defaults of a multi-row plate are pairwise distinct *)
+Lemma default_names_distinct name r c r' c' : (r < 26)%nat -> (r' < 26)%nat ->
+  (name ++ "." ++ well_id r c)%string = (name ++ "." ++ well_id r' c')%string -> r = r' /\ c = c'.
+Proof.
+  intros Hr Hr' H. apply append_inj_l in H. apply (append_inj_l ".") in H.
+  apply well_id_injective; assumption.
+Qed.
+
+Lemma pad2_inj' m k : pad2 m = pad2 k -> m = k.
+Proof. unfold pad2. intro H. apply pad2N_injective in H. apply Nat2N.inj. exact H. Qed.
+
+(** the per-column defaults of a multi-column trough are pairwise distinct *)
+Lemma column_names_distinct name c c' :
+  (name ++ ".column_" ++ pad2 (c + 1))%string = (name ++ ".column_" ++ pad2 (c' + 1))%string -> c = c'.
+Proof.
+  intro H. apply append_inj_l in H. apply (append_inj_l ".column_") in H.
+  apply pad2_inj' in H. lia.
+Qed.
+
+
+(** the name table a trough passes on: the given name, else the default for a filled column *)
+Lemma trough_names_get name multi : forall cn iv c0 c, (c < length cn)%nat -> length iv = length cn ->
+  assoc_get (well_id 0 (c0 + c)) (trough_names name multi c0 cn iv) =
+  Some (match nth c cn None with
+        | Some s => Some s
+        | None => if xnum_pos (nth c iv XNaN) then Some (trough_default name multi (c0 + c)) else None
+        end).
+Proof.
+  induction cn as [|g cn IH]; intros iv c0 c Hc Hlen; [cbn [length] in Hc; lia|].
+  destruct iv as [|v iv]; [discriminate|]. cbn [length] in Hc, Hlen.
+  cbn [trough_names assoc_get]. destruct c as [|c].
+  - rewrite Nat.add_0_r, String.eqb_refl. cbn [nth]. reflexivity.
+  - destruct (String.eqb_spec (well_id 0 c0) (well_id 0 (c0 + S c))) as [E|_].
+    + apply well_id_injective in E; lia.
+    + cbn [nth]. replace (c0 + S c)%nat with (S c0 + c)%nat by lia. apply IH; lia.
+Qed.
+
+Lemma mk_trough_ok a L : mk_trough a = Ok L ->
+  exists zc cn ivs,
+    t_cols a = PInt zc /\
+    cn = (match t_colnames a with
+          | CNone => repeat None (Z.to_nat zc) | CStr s => [Some s] | CList l => l end) /\
+    length cn = Z.to_nat zc /\ length ivs = Z.to_nat zc /\
+    mk_labware {| a_name := t_name a; a_rows := PInt 1; a_cols := t_cols a;
+                  a_min := t_min a; a_max := t_max a; a_init := Some (A1 ivs);
+                  a_vrows := Some (t_vrows a);
+                  a_names := trough_names (t_name a) (1 <? Z.to_nat zc)%nat 0 cn ivs |} = Ok L.
+Proof.
+  unfold mk_trough. destruct (t_cols a) as [zc|] eqn:EC; [|discriminate].
+  set (cn := match t_colnames a with
+             | CNone => repeat None (Z.to_nat zc) | CStr s => [Some s] | CList l => l end).
+  match goal with |- match ?iv with Some _ => _ | None => _ end = _ -> _ =>
+    destruct iv as [ivs|]; [|discriminate] end.
+  destruct (zc <? 0)%Z; [discriminate|].
+  destruct (length cn =? Z.to_nat zc)%nat eqn:E1; cbn [negb]; [|discriminate].
+  destruct (length ivs =? Z.to_nat zc)%nat eqn:E2; cbn [negb]; [|discriminate].
+  match goal with |- (if ?b then _ else _) = _ -> _ => destruct b; [discriminate|] end.
+  intro H. exists zc, cn, ivs. split; [reflexivity|]. split; [reflexivity|].
+  split; [apply Nat.eqb_eq; exact E1|]. split; [apply Nat.eqb_eq; exact E2|exact H].
+Qed.
+
+(** C05_names for troughs: a filled column consists 100 % of the component with the given column
+    name, or the default [name.column_NN] (several columns) / the trough name (one column) *)
+Lemma mk_trough_init a L : mk_trough a = Ok L ->
+  exists cn,
+    (forall zc, t_cols a = PInt zc ->
+       cn = match t_colnames a with
+            | CNone => repeat None (Z.to_nat zc) | CStr s => [Some s] | CList l => l end) /\
+    length cn = g_cols (lw_geom L) /\ g_rows (lw_geom L) = 1%nat /\ mix_inv L /\
+    forall c, (c < g_cols (lw_geom L))%nat ->
+      (vol_at L c == 0 -> forall k, frac L k c = 0) /\
+      (~ vol_at L c == 0 ->
+       forall k, frac L k c =
+         if String.eqb (match nth c cn None with
+                        | Some s => s
+                        | None => trough_default (t_name a) (1 <? g_cols (lw_geom L))%nat c
+                        end) k
+         then 1 else 0).
+Proof.
+  intro H. destruct (mk_trough_ok a L H) as (zc & cn & ivs & EC & Ecn & Lcn & Livs & HL).
+  destruct (mk_labware_init _ L HL) as (HI & Hcols & _).
+  destruct (mk_labware_ok _ L HL)
+    as (rows & cols & vrows & vs & Eg & _ & _ & _ & ER & ECo & Hlen & Hnn & Ev & Einit & _).
+  cbn [a_rows a_cols a_init a_name a_names] in *.
+  assert (Hrows : rows = 1%nat) by (cbn in ER; inversion ER; reflexivity).
+  assert (Hcols' : cols = Z.to_nat zc).
+  { rewrite EC in ECo. cbn [size_ok] in ECo. destruct (1 <=? zc)%Z; inversion ECo. reflexivity. }
+  subst rows. pose proof (Einit ivs eq_refl) as Eivs.
+  exists cn. split; [intros zc' E'; rewrite EC in E'; inversion E'; subst; reflexivity|].
+  rewrite Eg in *. cbn [g_rows g_cols] in *.
+  split; [lia|]. split; [reflexivity|]. split; [exact HI|].
+  intros c Hc. destruct (Hcols 0%nat c ltac:(lia) Hc) as [H0 H1]. cbn [Nat.mul Nat.add] in H0, H1.
+  split; [exact H0|]. intros Hv k. rewrite (H1 Hv k). f_equal. f_equal.
+  unfold init_name.
+  pose proof (trough_names_get (t_name a) (1 <? Z.to_nat zc)%nat cn ivs 0%nat c) as HG.
+  cbn [Nat.add] in HG. rewrite HG by lia. rewrite <- Hcols'.
+  destruct (nth c cn None) as [g|]; [reflexivity|].
+  (* the column is filled, so its initial volume is positive *)
+  assert (Hpos : xnum_pos (nth c ivs XNaN) = true).
+  { rewrite Eivs.
+    rewrite (nth_indep (map XQ vs) XNaN (XQ 0)) by (rewrite map_length; lia).
+    rewrite map_nth. cbn [xnum_pos]. unfold Qltb. apply negb_true_iff.
+    destruct (Qle_bool (nth c vs 0) 0) eqn:E; [|reflexivity]. exfalso. apply Qle_bool_iff in E.
+    assert (H2 : 0 <= nth c vs 0) by (apply (Forall_nth' (fun v => 0 <= v)); [exact Hnn|lra]).
+    apply Hv. unfold vol_at. rewrite Ev, nth_map_Qred. lra. }
+  rewrite Hpos. reflexivity.
+Qed.
+
+(* ------------------------------------------------------------------ refinement along a plan *)
+
+Lemma iw_remove_congr w w' v : iw_eq w w' -> iw_eq (iw_remove w v) (iw_remove w' v).
+Proof.
+  intros [H1 H2]. split; cbn [iw_remove iw_vol iw_amt]; [rewrite H1; reflexivity|].
+  intro k. rewrite H1, H2. reflexivity.
+Qed.
+
+Lemma iw_frac_congr w w' k : iw_eq w w' -> iw_frac w k == iw_frac w' k.
+Proof. intros [H1 H2]. unfold iw_frac. rewrite H1, H2. reflexivity. Qed.
+
+Lemma is_transfer_congr (W W' : istate) ks i_s kd i_d v : (forall k i, iw_eq (W k i) (W' k i)) ->
+  forall k i, iw_eq (is_transfer W ks i_s kd i_d v k i) (is_transfer W' ks i_s kd i_d v k i).
+Proof.
+  intro HW. unfold is_transfer. cbv zeta.
+  assert (H1 : forall k i, iw_eq (is_upd W ks i_s (iw_remove (W ks i_s) v) k i)
+                              (is_upd W' ks i_s (iw_remove (W' ks i_s) v) k i)).
+  { apply is_upd_congr; [exact HW|]. apply iw_remove_congr. apply HW. }
+  apply is_upd_congr; [exact H1|]. apply iw_add_congr; [apply H1|].
+  intro c. apply iw_frac_congr. apply HW.
+Qed.
+
+Lemma is_exec_congr ks kd Ls Ld acts : forall (W W' : istate), (forall k i, iw_eq (W k i) (W' k i)) ->
+  forall k i, iw_eq (is_exec W ks kd Ls Ld acts k i) (is_exec W' ks kd Ls Ld acts k i).
+Proof.
+  induction acts as [|a r IH]; intros W W' HW; [exact HW|].
+  destruct a as [sw dw v|]; cbn [is_exec]; [|apply IH; exact HW].
+  destruct (lw_index Ls sw) as [i_s|]; [|exact HW].
+  destruct (lw_index Ld dw) as [i_d|]; [|exact HW].
+  apply IH. apply is_transfer_congr. exact HW.
+Qed.
+
+Lemma is_exec_geom ks kd Ls Ld Ls' Ld' acts : lw_geom Ls' = lw_geom Ls -> lw_geom Ld' = lw_geom Ld ->
+  forall W, is_exec W ks kd Ls' Ld' acts = is_exec W ks kd Ls Ld acts.
+Proof.
+  intros E1 E2. induction acts as [|a r IH]; intro W; [reflexivity|].
+  destruct a as [sw dw v|]; cbn [is_exec]; [|apply IH].
+  rewrite (lw_index_geom' Ls' Ls sw E1), (lw_index_geom' Ld' Ld dw E2).
+  destruct (lw_index Ls sw); [|reflexivity]. destruct (lw_index Ld dw); [|reflexivity]. apply IH.
+Qed.
+
+(** geometry never changes *)
+Lemma exec_step_geom s ks kd sw dw v ws kw s' : exec_step s ks kd sw dw v ws kw = (s', None) ->
+  forall k L, nth_error (st_lw s) k = Some L ->
+  exists L', nth_error (st_lw s') k = Some L' /\ lw_geom L' = lw_geom L.
+Proof.
+  intros H k L EL.
+  destruct (exec_step_ok _ _ _ _ _ _ _ _ _ H) as (Ls & i_s & Ld & i_d & ELs & _ & _ & _ & ELd & _ & Es').
+  rewrite Es'. rewrite (nth_error_upd _ kd _ k Ld ELd).
+  destruct (Nat.eqb_spec k kd) as [Ek|Nk].
+  - subst k. eexists. split; [reflexivity|].
+    change (lw_geom (log (add_step Ld i_d v (Some (wca (lw_comp Ls) i_s))) None))
+      with (lw_geom (add_step Ld i_d v (Some (wca (lw_comp Ls) i_s)))).
+    rewrite add_step_geom.
+    rewrite (nth_error_upd _ ks _ kd Ls ELs) in ELd. destruct (Nat.eqb_spec kd ks) as [E|N].
+    + subst kd. inversion ELd; subst. rewrite ELs in EL. inversion EL; subst. reflexivity.
+    + rewrite ELd in EL. inversion EL; subst. reflexivity.
+  - rewrite (nth_error_upd _ ks _ k Ls ELs). destruct (Nat.eqb_spec k ks) as [E|N].
+    + subst k. eexists. split; [reflexivity|]. rewrite ELs in EL. inversion EL; subst. reflexivity.
+    + exists L. split; [exact EL|reflexivity].
+Qed.
+
+(** C05_refines along a plan: the tracked wells follow the ideal transfers step by step *)
+Lemma exec_refines acts : forall s ks kd ws kw s' Ls Ld, st_inv s -> Forall step_positive acts ->
+  nth_error (st_lw s) ks = Some Ls -> nth_error (st_lw s) kd = Some Ld ->
+  exec s ks kd acts ws kw = (s', None) ->
+  forall k i, iw_eq (abs_state s' k i) (is_exec (abs_state s) ks kd Ls Ld acts k i).
+Proof.
+  induction acts as [|a r IH]; intros s ks kd ws kw s' Ls Ld HI HP ELs ELd H.
+  - cbn [exec] in H. inversion H; subst. intros k i. apply iw_eq_refl.
+  - inversion HP as [|a' r' Ha Hr]; subst. destruct a as [sw dw v|]; cbn [exec] in H.
+    + cbn [step_positive] in Ha.
+      destruct (exec_step s ks kd sw dw v ws kw) as [s1 [e|]] eqn:E1; [discriminate|].
+      destruct (exec_step_refines s ks kd sw dw v ws kw s1 HI Ha E1)
+        as (Ls0 & i_s & Ld0 & i_d & ELs0 & Eis & ELd0 & Eid & _ & _ & _ & _ & HR).
+      rewrite ELs in ELs0. inversion ELs0; subst Ls0. rewrite ELd in ELd0. inversion ELd0; subst Ld0.
+      destruct (exec_step_geom _ _ _ _ _ _ _ _ _ E1 ks Ls ELs) as (Ls1 & ELs1 & Eg1).
+      destruct (exec_step_geom _ _ _ _ _ _ _ _ _ E1 kd Ld ELd) as (Ld1 & ELd1 & Eg2).
+      assert (HI1 : st_inv s1).
+      { pose proof (exec_step_inv s ks kd sw dw v ws kw HI) as HI1. rewrite E1 in HI1. exact HI1. }
+      intros k i. cbn [is_exec]. rewrite Eis, Eid.
+      eapply iw_eq_trans; [apply (IH s1 ks kd ws kw s' Ls1 Ld1 HI1 Hr ELs1 ELd1 H)|].
+      rewrite (is_exec_geom ks kd Ls Ld Ls1 Ld1 r Eg1 Eg2).
+      apply is_exec_congr. exact HR.
+    + cbn [is_exec]. exact (IH (set_wl s (fst (commit (st_wl s)))) ks kd ws kw s' Ls Ld HI Hr ELs ELd H).
+Qed.
+
+(** every step of a plan moves a positive volume *)
+Lemma plan_positive autosplit m mode triples : Forall step_positive (plan autosplit m mode triples).
+Proof.
+  assert (Hpass : forall p rows, Forall step_positive (pass_steps p rows)).
+  { intros p rows. unfold pass_steps. apply Forall_forall. intros a Ha.
+    apply in_flat_map in Ha. destruct Ha as [t [_ Ha]].
+    destruct (nth_error (snd t) p) as [v|]; [|destruct Ha].
+    destruct (Qltb 0 v) eqn:E; [|destruct Ha]. destruct Ha as [Ha|[]]. subst a.
+    cbn [step_positive]. apply Qltb_true'. exact E. }
+  assert (Hc : forall (b : bool), Forall step_positive (if b then [Commit] else [])).
+  { intro b. destruct b; [constructor; [exact I|constructor]|constructor]. }
+  unfold plan. apply Forall_forall. intros a Ha. apply in_flat_map in Ha. destruct Ha as [g [_ Ha]].
+  unfold group_plan in Ha. cbv zeta in Ha. apply in_app_or in Ha. destruct Ha as [Ha|Ha].
+  - apply in_flat_map in Ha. destruct Ha as [p [_ Ha]]. apply in_app_or in Ha. destruct Ha as [Ha|Ha].
+    + pose proof (Hpass p (map (fun t => (fst (fst t), snd (fst t), vol_list autosplit m (snd t))) g)) as HF.
+      rewrite Forall_forall in HF. apply HF. exact Ha.
+    + match type of Ha with In _ (if ?b then _ else _) => pose proof (Hc b) as HF end.
+      rewrite Forall_forall in HF. apply HF. exact Ha.
+  - match type of Ha with In _ (if ?b then _ else _) => pose proof (Hc b) as HF end.
+    rewrite Forall_forall in HF. apply HF. exact Ha.
+Qed.
+
+Lemma abs_state_condense_at s k0 n label : forall k i,
+  abs_state (condense_at s k0 n label) k i = abs_state s k i.
+Proof.
+  intros k i. unfold condense_at. destruct (nth_error (st_lw s) k0) as [L|] eqn:E; [|reflexivity].
+  unfold abs_state. cbn [set_lw st_lw]. rewrite (nth_error_upd _ k0 _ k L E).
+  destruct (Nat.eqb_spec k k0) as [Ek|_]; [|reflexivity]. subst k. rewrite E.
+  unfold condense_log. destruct (n <? 1)%nat; reflexivity.
+Qed.
+
+(** C05_refines for [transfer]: an accepted transfer acts as the ideal execution of its plan *)
+Lemma transfer_refines s ks swells kd dwells vols label ws pb kw s' Ls Ld : st_inv s ->
+  nth_error (st_lw s) ks = Some Ls -> nth_error (st_lw s) kd = Some Ld ->
+  transfer s ks swells kd dwells vols label ws pb kw = (s', None) ->
+  exists acts, Forall step_positive acts /\
+    forall k i, iw_eq (abs_state s' k i) (is_exec (abs_state s) ks kd Ls Ld acts k i).
+Proof.
+  intros HI ELs ELd. unfold transfer. rewrite ELs, ELd.
+  destruct (w_dev (st_wl s)); try discriminate;
+  (cbv beta iota zeta;
+   match goal with |- context [if negb ?b then _ else _] => destruct (negb b); [discriminate|] end;
+   match goal with |- context [if existsb ?f ?l then _ else _] => destruct (existsb f l); [discriminate|] end;
+   match goal with |- context [if ?a || ?b then _ else _] => destruct (a || b); [discriminate|] end;
+   destruct (optimize_partition_by (is_trough (lw_geom Ls)) (is_trough (lw_geom Ld)) pb) as [mode|e];
+     [|discriminate];
+   destruct (comment (st_wl s) label) as [w [e|]]; [discriminate|];
+   match goal with |- context [exec ?s0 ?a ?b ?acts ?c ?d] =>
+     pose proof (fun s1 => exec_refines acts s0 a b c d s1 Ls Ld HI (plan_positive _ _ _ _) ELs ELd) as HE;
+     destruct (exec s0 a b acts c d) as [s1 [e|]]; [discriminate|];
+     specialize (HE s1 eq_refl);
+     match goal with |- context [if ?b then _ else _] => destruct b end;
+     intro H; inversion H; subst; exists acts; (split; [apply plan_positive|]);
+     intros k i; rewrite ?abs_state_condense_at; apply HE end).
+Qed.
+
+(* ------------------------------------------------------------------ non-empty wells are fully known *)
+
+Lemma add_step_known_inv L i v oc : mix_inv L -> known_inv L -> (i < n_wells (lw_geom L))%nat ->
+  0 <= v -> ocomp_ok oc -> oadd_known (XQ v) oc -> known_inv (add_step L i v oc).
+Proof.
+  intros HI HK Hi Hv Hoc Hkn j Hj Hvol. rewrite add_step_geom in Hj.
+  pose proof HI as [HVB HCI]. pose proof (vol_base_vol_at L i HVB) as H0.
+  pose proof HCI as (HL & ND & HB & HS). pose proof HVB as (_ & Hlen & _).
+  rewrite vol_at_add_step in Hvol by lia.
+  destruct (Nat.eqb_spec i j) as [E|N].
+  - subst j. rewrite Qred_correct in Hvol. unfold fully_known.
+    destruct oc as [c|]; cbn [oadd_known ocomp_ok] in *.
+    + destruct Hoc as (NC & _).
+      rewrite add_step_well_sum; try assumption; [|intro k; apply (comp_inv_frac L k i HCI)].
+      destruct (Qeq_dec v 0) as [Ev|Nv].
+      * assert (Hn0 : ~ vol_at L i == 0) by lra.
+        pose proof (HK i Hi Hn0) as H1. unfold fully_known in H1. rewrite H1, Ev. field. exact Hn0.
+      * assert (Hpos : 0 < v) by lra. pose proof (Hkn Hpos) as HF. unfold comp_full in HF. rewrite HF.
+        destruct (Qeq_dec (vol_at L i) 0) as [E0|N0].
+        -- rewrite E0. field. lra.
+        -- pose proof (HK i Hi N0) as H1. unfold fully_known in H1. rewrite H1. field. exact Hvol.
+    + assert (Hn0 : ~ vol_at L i == 0) by lra. exact (HK i Hi Hn0).
+  - apply add_step_known_other; try assumption; [congruence|]. apply HK; assumption.
+Qed.
+
+Lemma rem_step_known_inv L i v : mix_inv L -> known_inv L -> (i < n_wells (lw_geom L))%nat -> 0 <= v ->
+  lw_min L <= Qred (vol_at L i - v) -> known_inv (rem_step L i v).
+Proof.
+  intros HI HK Hi Hv Hacc j Hj Hvol. change (n_wells (lw_geom (rem_step L i v))) with (n_wells (lw_geom L)) in Hj.
+  pose proof HI as [HVB _]. pose proof (vol_base_vol_at L i HVB) as H0.
+  pose proof HVB as (_ & Hlen & Hmin & _).
+  change (fully_known L j). apply HK; [exact Hj|].
+  rewrite vol_at_rem_step in Hvol by lia. destruct (Nat.eqb_spec i j) as [E|N]; [|exact Hvol].
+  subst j. rewrite Qred_correct in Hvol, Hacc. intro E0. apply Hvol. lra.
+Qed.
+
+Definition aitem_known (it : string * xnum * option composition) : Prop :=
+  oadd_known (snd (fst it)) (snd it).
+
+Lemma add_loop_known_inv items : forall L, Forall aitem_ok items -> Forall aitem_known items ->
+  mix_inv L -> known_inv L -> known_inv (fst (add_loop L items)).
+Proof.
+  induction items as [|[[w x] oc] rest IH]; intros L HF HKn HI HK; [exact HK|].
+  inversion HF as [|it r [Hv Hoc] Hrest]; subst. cbn [fst snd] in Hv, Hoc.
+  inversion HKn as [|it r Hk Hkrest]; subst. unfold aitem_known in Hk. cbn [fst snd] in Hk.
+  rewrite add_loop_cons'. destruct (lw_index L w) as [i|] eqn:Ei; [|exact HK].
+  destruct x as [v| | |]; try exact HK.
+  destruct (Qgtb (Qred (vol_at L i + v)) (lw_max L)); [exact HK|].
+  assert (Hi : (i < n_wells (lw_geom L))%nat) by (apply (lw_index_lt L w i); [apply HI|exact Ei]).
+  pose proof (vol_ok_XQ' v Hv) as Hv0.
+  apply IH; try assumption.
+  - apply add_step_inv; assumption.
+  - apply add_step_known_inv; assumption.
+Qed.
+
+Lemma remove_loop_known_inv items : forall L, Forall (fun p => vol_ok (snd p) = true) items ->
+  mix_inv L -> known_inv L -> known_inv (fst (remove_loop L items)).
+Proof.
+  induction items as [|[w x] rest IH]; intros L HF HI HK; [exact HK|].
+  inversion HF as [|it r Hv Hrest]; subst. cbn [snd] in Hv.
+  rewrite remove_loop_cons'. destruct (lw_index L w) as [i|] eqn:Ei; [|exact HK].
+  destruct x as [v| | |]; try exact HK.
+  destruct (Qltb (Qred (vol_at L i - v)) (lw_min L)) eqn:E; [exact HK|].
+  apply Qltb_false' in E. pose proof (vol_ok_XQ' v Hv) as Hv0.
+  assert (Hi : (i < n_wells (lw_geom L))%nat) by (apply (lw_index_lt L w i); [apply HI|exact Ei]).
+  apply IH; try assumption.
+  - apply rem_step_inv; assumption.
+  - apply rem_step_known_inv; assumption.
+Qed.
+
+Lemma known_inv_same L L' : lw_geom L' = lw_geom L -> lw_vols L' = lw_vols L ->
+  lw_comp L' = lw_comp L -> known_inv L -> known_inv L'.
+Proof.
+  intros Eg Ev Ec HK. unfold known_inv, fully_known, well_sum, vol_at in *.
+  rewrite Eg, Ev, Ec. exact HK.
+Qed.
+
+Lemma remove_known_inv L wells vols label : mix_inv L -> known_inv L ->
+  known_inv (fst (remove L wells vols label)).
+Proof.
+  intros HI HK. unfold remove. destruct (prep_wells_vols wells vols) as [wv|e] eqn:EP; [|exact HK].
+  pose proof (remove_loop_known_inv wv L (prep_wells_vols_vol_ok _ _ _ EP) HI HK) as H.
+  destruct (remove_loop L wv) as [L' [e|]]; cbn [fst] in *; [exact H|].
+  apply (known_inv_same L' (log L' label)); try reflexivity. exact H.
+Qed.
+
+
+
+Lemma st_known_nth s k L : st_known s -> nth_error (st_lw s) k = Some L -> known_inv L.
+Proof. intros H E. unfold st_known in H. rewrite Forall_forall in H. apply H. eapply nth_error_In. exact E. Qed.
+
+Lemma aspirate_known s k wells vols label kw : st_inv s -> st_known s ->
+  st_known (fst (aspirate s k wells vols label kw)).
+Proof.
+  intros HI HK. unfold st_known. rewrite aspirate_st_lw.
+  destruct (nth_error (st_lw s) k) as [L|] eqn:E; [|exact HK].
+  apply Forall_upd'; [exact HK|].
+  apply remove_known_inv; [exact (st_inv_nth s k L HI E)|exact (st_known_nth s k L HK E)].
+Qed.
+
+(** [add] with an explicit condition on the items *)
+Lemma add_known_inv' L wells vols label cs : mix_inv L -> known_inv L -> comps_ok (Some cs) ->
+  (forall wv, prep_wells_vols wells vols = Ok wv ->
+     Forall aitem_known (map (fun p => (fst (fst p), snd (fst p), snd p)) (zip wv cs))) ->
+  known_inv (fst (add L wells vols label (Some cs))).
+Proof.
+  intros HI HK HC HKn. unfold add. destruct (prep_wells_vols wells vols) as [wv|e] eqn:EP; [|exact HK].
+  cbn [comps_ok] in HC.
+  destruct (negb (length cs =? length wv)%nat); [exact HK|].
+  set (items := map (fun p => (fst (fst p), snd (fst p), snd p)) (zip wv cs)).
+  pose proof (Forall_zip _ _ wv cs (prep_wells_vols_vol_ok _ _ _ EP) HC) as HZ.
+  assert (HF : Forall aitem_ok items).
+  { apply Forall_map. eapply Forall_impl; [|exact HZ]. intros [[w x] oc] [H1 H2]. split; assumption. }
+  pose proof (add_loop_known_inv items L HF (HKn wv eq_refl) HI HK) as H.
+  destruct (add_loop L items) as [L' [e|]]; cbn [fst] in *; [exact H|].
+  apply (known_inv_same L' (log L' label)); try reflexivity. exact H.
+Qed.
+
+Lemma add_known_inv L wells vols label comps : mix_inv L -> known_inv L -> comps_ok comps ->
+  comps_known comps -> known_inv (fst (add L wells vols label comps)).
+Proof.
+  intros HI HK HC HKn. destruct comps as [cs|]; [|destruct HKn].
+  apply add_known_inv'; try assumption. intros wv _. cbn [comps_known] in HKn.
+  apply Forall_map. apply Forall_forall. intros [[w x] oc] Hin. unfold aitem_known. cbn [fst snd].
+  assert (Hoc : In oc cs).
+  { clear - Hin. revert cs Hin. induction wv as [|p r IH]; intros cs Hin; [destruct Hin|].
+    destruct cs as [|c cs]; [destruct Hin|]. cbn [zip] in Hin. destruct Hin as [E|Hin].
+    - inversion E; subst. left. reflexivity.
+    - right. apply IH. exact Hin. }
+  rewrite Forall_forall in HKn. pose proof (HKn oc Hoc) as H. destruct oc as [c|]; [|destruct H].
+  destruct x; cbn [oadd_known]; auto.
+Qed.
+
+Lemma dispense_known s k wells vols label comps kw : st_inv s -> st_known s -> comps_ok comps ->
+  comps_known comps -> st_known (fst (dispense s k wells vols label comps kw)).
+Proof.
+  intros HI HK HC HKn. unfold st_known. rewrite dispense_st_lw.
+  destruct (nth_error (st_lw s) k) as [L|] eqn:E; [|exact HK].
+  apply Forall_upd'; [exact HK|].
+  apply add_known_inv; try assumption; [exact (st_inv_nth s k L HI E)|exact (st_known_nth s k L HK E)].
+Qed.
+
+Lemma dispense_known' s k wells vols label cs kw : st_inv s -> st_known s -> comps_ok (Some cs) ->
+  (forall wv, prep_wells_vols (A1 (flattenF wells)) (A1 (broadcast (flattenF vols) (length (flattenF wells)))) = Ok wv ->
+     Forall aitem_known (map (fun p => (fst (fst p), snd (fst p), snd p)) (zip wv cs))) ->
+  st_known (fst (dispense s k wells vols label (Some cs) kw)).
+Proof.
+  intros HI HK HC HKn. unfold st_known. rewrite dispense_st_lw.
+  destruct (nth_error (st_lw s) k) as [L|] eqn:E; [|exact HK].
+  apply Forall_upd'; [exact HK|].
+  apply add_known_inv'; try assumption; [exact (st_inv_nth s k L HI E)|exact (st_known_nth s k L HK E)].
+Qed.
+
+(** the liquid a pipetting step moves is fully known whenever its volume is positive *)
+Lemma exec_step_known s ks kd sw dw v ws kw : st_inv s -> st_known s ->
+  st_known (fst (exec_step s ks kd sw dw v ws kw)).
+Proof.
+  intros HI HK. unfold exec_step.
+  pose proof (aspirate_known s ks (A0 sw) (A0 (XQ v)) None kw HI HK) as H1.
+  pose proof (aspirate_inv s ks (A0 sw) (A0 (XQ v)) None kw HI) as HI1.
+  destruct (aspirate s ks (A0 sw) (A0 (XQ v)) None kw) as [s1 [e|]] eqn:EA; cbn [fst] in *; [exact H1|].
+  destruct (aspirate_single s ks sw v kw s1 EA) as (Ls & i_s & ELs & Eis & Hv & Hmin & Es1).
+  assert (EL1 : nth_error (st_lw s1) ks = Some (log (rem_step Ls i_s v) None)).
+  { rewrite Es1, (nth_error_upd _ _ _ _ _ ELs), Nat.eqb_refl. reflexivity. }
+  rewrite EL1. unfold get_well_composition.
+  rewrite (lw_index_geom' (log (rem_step Ls i_s v) None) Ls sw eq_refl), Eis.
+  rewrite well_composition_at_wca. cbn [log set_hist rem_step set_vols lw_comp].
+  pose proof (st_inv_nth s ks Ls HI ELs) as HLs. pose proof (st_known_nth s ks Ls HK ELs) as HKs.
+  assert (His : (i_s < n_wells (lw_geom Ls))%nat) by (apply (lw_index_lt Ls sw); [apply HLs|exact Eis]).
+  pose proof (wca_comp_ok Ls i_s HLs) as [HC HCs].
+  assert (H2 : st_known (fst (dispense s1 kd (A0 dw) (A0 (XQ v)) None (Some [Some (wca (lw_comp Ls) i_s)]) kw))).
+  { apply dispense_known'; try assumption.
+    - constructor; [exact HC|constructor].
+    - intros wv EP. unfold prep_wells_vols in EP.
+      cbn [flattenF broadcast length repeat Nat.eqb negb forallb vol_ok] in EP.
+      destruct (negb (Qle_bool 0 v && true)); [discriminate|]. inversion EP; subst wv.
+      cbn [zip map fst snd]. constructor; [|constructor].
+      unfold aitem_known. cbn [fst snd oadd_known]. intro Hpos.
+      unfold comp_full. rewrite (HCs His).
+      pose proof HLs as [(_ & _ & Hmin0 & _) _]. rewrite Qred_correct in Hmin.
+      apply (HKs i_s His). lra. }
+  destruct (dispense s1 kd (A0 dw) (A0 (XQ v)) None (Some [Some (wca (lw_comp Ls) i_s)]) kw)
+    as [s2 [e|]]; cbn [fst] in H2; [exact H2|].
+  destruct (tip_action (st_wl s2) ws) as [w e]. exact H2.
+Qed.
+
+Lemma exec_known acts : forall s ks kd ws kw, st_inv s -> st_known s ->
+  st_known (fst (exec s ks kd acts ws kw)).
+Proof.
+  induction acts as [|a rest IH]; intros s ks kd ws kw HI HK; [exact HK|].
+  destruct a as [sw dw v|]; cbn [exec].
+  - pose proof (exec_step_inv s ks kd sw dw v ws kw HI) as H1.
+    pose proof (exec_step_known s ks kd sw dw v ws kw HI HK) as H2.
+    destruct (exec_step s ks kd sw dw v ws kw) as [s' [e|]]; cbn [fst] in *; [exact H2|].
+    apply IH; assumption.
+  - apply IH; assumption.
+Qed.
+
+Lemma condense_at_known s k n label : st_known s -> st_known (condense_at s k n label).
+Proof.
+  intro HK. unfold condense_at. destruct (nth_error (st_lw s) k) as [L|] eqn:E; [|exact HK].
+  unfold st_known. cbn [set_lw st_lw]. apply Forall_upd'; [exact HK|].
+  destruct (condense_log_comp L n label) as (Ec & Ev & Eg).
+  apply (known_inv_same L); try assumption. exact (st_known_nth s k L HK E).
+Qed.
+
+Lemma transfer_known s ks swells kd dwells vols label ws pb kw : st_inv s -> st_known s ->
+  st_known (fst (transfer s ks swells kd dwells vols label ws pb kw)).
+Proof.
+  intros HI HK. unfold transfer.
+  destruct (w_dev (st_wl s)); try exact HK;
+  (destruct (nth_error (st_lw s) ks) as [Ls|]; [|exact HK];
+   destruct (nth_error (st_lw s) kd) as [Ld|]; [|exact HK];
+   cbv zeta;
+   match goal with |- context [if negb ?b then _ else _] => destruct (negb b); [exact HK|] end;
+   match goal with |- context [if existsb ?f ?l then _ else _] => destruct (existsb f l); [exact HK|] end;
+   match goal with |- context [if ?a || ?b then _ else _] => destruct (a || b); [exact HK|] end;
+   destruct (optimize_partition_by (is_trough (lw_geom Ls)) (is_trough (lw_geom Ld)) pb) as [mode|e];
+     [|exact HK];
+   destruct (comment (st_wl s) label) as [w [e|]]; [exact HK|];
+   match goal with |- context [exec ?s0 ?a ?b ?acts ?c ?d] =>
+     pose proof (exec_known acts s0 a b c d HI HK) as HE; destruct (exec s0 a b acts c d) as [s' [e|]] end;
+   cbn [fst] in *; [exact HE|];
+   match goal with |- context [if ?b then _ else _] => destruct b end; cbn [fst];
+   repeat apply condense_at_known; exact HE).
+Qed.
+
+Lemma dist_items_known (wv : list (string * xnum)) q c m :
+  Forall (fun p => snd p = XQ q) wv -> (0 < q -> comp_full c) ->
+  Forall aitem_known (map (fun p => (fst (fst p), snd (fst p), snd p)) (zip wv (repeat (Some c) m))).
+Proof.
+  intros Hwv HC.
+  assert (HR : Forall (fun oc : option composition => oc = Some c) (repeat (Some c) m)).
+  { apply Forall_forall. intros oc Hoc. apply repeat_spec in Hoc. exact Hoc. }
+  pose proof (Forall_zip _ _ wv (repeat (Some c) m) Hwv HR) as HZ.
+  apply Forall_map. eapply Forall_impl; [|exact HZ]. intros [[w x] oc] [H1 H2].
+  cbn [fst snd] in *. subst x oc. unfold aitem_known. cbn [fst snd oadd_known]. exact HC.
+Qed.
+
+Lemma zip_nil_r {A B} (l : list A) : zip l (@nil B) = [].
+Proof. destruct l; reflexivity. Qed.
+
+Lemma distribute_known s ks kd dwells a : st_inv s -> st_known s ->
+  st_known (fst (distribute s ks kd dwells a)).
+Proof.
+  intros HI HK. unfold distribute.
+  destruct (nth_error (st_lw s) ks) as [Ls|] eqn:ELs; [|exact HK].
+  destruct (nth_error (st_lw s) kd) as [Ld|] eqn:ELd; [|exact HK].
+  pose proof (st_inv_nth s ks Ls HI ELs) as HLs. pose proof (st_known_nth s ks Ls HK ELs) as HKs.
+  destruct (g_vrows (lw_geom Ls)) as [vr|]; [|exact HK].
+  destruct (rvol_x (d_volume a)) as [xv|]; [|exact HK].
+  match goal with |- st_known (fst (match xv with XQ _ => ?B | _ => _ end)) =>
+    assert (HB : st_known (fst B)); [|destruct xv; [exact HB|exact HK|exact HB|exact HB]] end.
+  match goal with |- context [if ?b then (s, Some EInvalidOp) else _] => destruct b; [exact HK|] end.
+  cbv zeta.
+  match goal with |- context [if existsb ?f ?l then (s, Some EReject) else _] =>
+    destruct (existsb f l); [exact HK|] end.
+  destruct (positions_of (w_dev (st_wl s)) (lw_geom Ld) (flattenF dwells)) as [ps|e]; [|exact HK].
+  destruct (sort_Z (map Z.of_nat ps)) as [|p0 sorted']; [exact HK|].
+  match goal with |- context [if negb ?b then _ else _] => destruct (negb b); [exact HK|] end.
+  match goal with |- context [remove Ls ?w ?x ?lab] =>
+    pose proof (remove_inv Ls w x lab HLs) as HR;
+    pose proof (remove_known_inv Ls w x lab HLs HKs) as HRK;
+    destruct (remove Ls w x lab) as [Ls' [e|]] eqn:ER; cbn [fst] in HR, HRK end.
+  { cbn [fst set_lw]. unfold st_known. cbn [st_lw]. apply Forall_upd'; [exact HK|exact HRK]. }
+  destruct (remove_A0_ok _ _ _ _ _ ER) as (V & i_s & EV & HV & Eis & Hmin & ELs').
+  assert (His : (i_s < n_wells (lw_geom Ls))%nat)
+    by (apply (lw_index_lt Ls (well_id 0 (Z.to_nat (d_source_column a))) i_s); [apply HLs|exact Eis]).
+  assert (HI1 : st_inv (set_lw s ks Ls'))
+    by (unfold st_inv; cbn [set_lw st_lw]; apply Forall_upd'; [exact HI|exact HR]).
+  assert (HK1 : st_known (set_lw s ks Ls'))
+    by (unfold st_known; cbn [set_lw st_lw]; apply Forall_upd'; [exact HK|exact HRK]).
+  unfold get_well_composition. rewrite ELs' at 1.
+  rewrite (lw_index_geom' (log (rem_step Ls i_s V) (d_label a)) Ls _ eq_refl), Eis.
+  rewrite well_composition_at_wca.
+  assert (EC : lw_comp Ls' = lw_comp Ls) by (rewrite ELs'; reflexivity). rewrite EC.
+  destruct (nth_error (st_lw (set_lw s ks Ls')) kd) as [Ld1|] eqn:ELd1; [|exact HK1].
+  pose proof (st_inv_nth _ kd Ld1 HI1 ELd1) as HLd1. pose proof (st_known_nth _ kd Ld1 HK1 ELd1) as HKd1.
+  pose proof (wca_comp_ok Ls i_s HLs) as [HC HCs].
+  assert (HA : known_inv (fst (add Ld1 (A1 (flattenF dwells)) (A0 xv) (d_label a)
+                                  (Some (repeat (Some (wca (lw_comp Ls) i_s)) (length ps)))))).
+  { apply add_known_inv'; try assumption.
+    - cbn [comps_ok]. apply Forall_forall. intros oc Hoc. apply repeat_spec in Hoc. subst oc. exact HC.
+    - intros wv EP.
+      destruct xv as [q| | |]; unfold xmul_nat in EV; try (destruct (length ps =? 0)%nat; discriminate).
+      assert (EV' : Qred (q * inject_Z (Z.of_nat (length ps))) = V) by congruence.
+      destruct (length ps) as [|n'] eqn:En.
+      + cbn [repeat]. rewrite zip_nil_r. constructor.
+      + apply (dist_items_known wv q); [exact (prep_A1_A0 _ _ _ EP)|]. intro Hq.
+        unfold comp_full. rewrite (HCs His). apply (HKs i_s His).
+        pose proof HLs as [(_ & _ & Hmin0 & _) _].
+        assert (HVpos : 0 < V).
+        { rewrite <- EV', Qred_correct.
+          assert (Hn : 0 < inject_Z (Z.of_nat (S n')))
+            by (change 0 with (inject_Z 0); rewrite <- Zlt_Qlt; lia).
+          nra. }
+        rewrite Qred_correct in Hmin. lra. }
+  pose proof (add_inv Ld1 (A1 (flattenF dwells)) (A0 xv) (d_label a)
+                (Some (repeat (Some (wca (lw_comp Ls) i_s)) (length ps))) HLd1) as HAI.
+  destruct (add Ld1 (A1 (flattenF dwells)) (A0 xv) (d_label a)
+              (Some (repeat (Some (wca (lw_comp Ls) i_s)) (length ps)))) as [Ld' [e|]]; cbn [fst] in HA, HAI.
+  { cbn [fst set_lw]. unfold st_known. cbn [st_lw]. apply Forall_upd'; [exact HK1|exact HA]. }
+  assert (HK2 : st_known (set_lw (set_lw s ks Ls') kd Ld'))
+    by (unfold st_known; cbn [set_lw st_lw]; apply Forall_upd'; [exact HK1|exact HA]).
+  destruct (ks =? kd)%nat;
+  match goal with |- context [comment (st_wl ?s2) ?lab] =>
+    assert (HK3 : st_known s2) by (try apply condense_at_known; exact HK2);
+    destruct (comment (st_wl s2) lab) as [w1 [e|]]; [exact HK3|] end;
+  match goal with |- context [reagent_distribution ?w ?args] =>
+    destruct (reagent_distribution w args) as [w2 e2] end; exact HK3.
+Qed.
+
+(* ------------------------------------------------------------------ statements as used in Props/C05.v *)
+
+(** C05_write_local *)
+Lemma write_composition_local L i c :
+  Forall (fun ka => length (snd ka) = n_wells (lw_geom L)) (lw_comp L) ->
+  (i < n_wells (lw_geom L))%nat -> NoDup (map fst c) ->
+  let L' := write_composition L i c in
+  (lw_name L' = lw_name L /\ lw_geom L' = lw_geom L /\ lw_min L' = lw_min L /\ lw_max L' = lw_max L /\
+   lw_vols L' = lw_vols L /\ lw_hist L' = lw_hist L) /\
+  Forall (fun ka => length (snd ka) = n_wells (lw_geom L)) (lw_comp L') /\
+  map fst (lw_comp L') = (map fst (lw_comp L) ++ fresh_keys (map fst (lw_comp L)) (map fst c))%list /\
+  (forall k a, assoc_get k (lw_comp L) = Some a ->
+     exists a', assoc_get k (lw_comp L') = Some a' /\ length a' = length a /\
+                forall j d, j <> i -> nth j a' d = nth j a d) /\
+  (forall k, assoc_get k (lw_comp L) = None -> In k (map fst c) ->
+     exists a', assoc_get k (lw_comp L') = Some a' /\ length a' = n_wells (lw_geom L) /\
+                forall j, j <> i -> nth j a' 0 = 0) /\
+  (forall k, In k (map fst c) -> frac L' k i = cget k c) /\
+  (forall k, ~ In k (map fst c) -> assoc_get k (lw_comp L') = assoc_get k (lw_comp L)) /\
+  (forall k j, j <> i -> frac L' k j = frac L k j).
+Proof.
+  intros HL Hi NC L'. unfold L'. split; [apply write_composition_fields|].
+  rewrite write_composition_comp. split; [apply wc_fold_len; exact HL|].
+  split; [apply wc_fold_keys; exact NC|]. split; [intros k a E; apply wc_fold_arrays; exact E|].
+  split.
+  { intros k E Hin. destruct (wc_fold_new _ i c NC (lw_comp L) k HL Hi E Hin) as (a' & E' & Ln & _ & Hz).
+    exists a'. split; [exact E'|]. split; [exact Ln|exact Hz]. }
+  split.
+  { intros k Hin. unfold frac. rewrite write_composition_comp, wc_fold_frac by assumption.
+    rewrite Nat.eqb_refl. apply mem_str_true in Hin. rewrite Hin. reflexivity. }
+  split; [intros k Hnin; apply wc_fold_other; exact Hnin|].
+  intros k j Hj. unfold frac. rewrite write_composition_comp, wc_fold_frac by assumption.
+  destruct (Nat.eqb_spec i j) as [E|_]; [congruence|reflexivity].
+Qed.
+
+(** C05_add_step: the loop element *)
+Lemma add_loop_step L w v oc rest i : lw_index L w = Some i ->
+  Qgtb (Qred (vol_at L i + v)) (lw_max L) = false ->
+  add_loop L ((w, XQ v, oc) :: rest) = add_loop (add_step L i v oc) rest.
+Proof. intros Ei Eg. rewrite add_loop_cons', Ei, Eg. reflexivity. Qed.
+
+Lemma remove_loop_step L w v rest i : lw_index L w = Some i ->
+  Qltb (Qred (vol_at L i - v)) (lw_min L) = false ->
+  remove_loop L ((w, XQ v) :: rest) = remove_loop (rem_step L i v) rest.
+Proof. intros Ei Eg. rewrite remove_loop_cons', Ei, Eg. reflexivity. Qed.
+
+Lemma mk_labware_known a L : mk_labware a = Ok L -> known_inv L.
+Proof. intros H i Hi Hv. destruct (mk_labware_init a L H) as (_ & _ & HK). apply (HK i Hi). exact Hv. Qed.
+
+Lemma mk_trough_known a L : mk_trough a = Ok L -> known_inv L.
+Proof.
+  intro H. destruct (mk_trough_ok a L H) as (zc & cn & ivs & _ & _ & _ & _ & HL).
+  exact (mk_labware_known _ L HL).
+Qed.
+
+Lemma mk_labware_mix_inv a L : mk_labware a = Ok L -> mix_inv L.
+Proof. intro H. exact (proj1 (mk_labware_init a L H)). Qed.
+
+Lemma mk_trough_mix_inv a L : mk_trough a = Ok L -> mix_inv L.
+Proof.
+  intro H. destruct (mk_trough_ok a L H) as (zc & cn & ivs & _ & _ & _ & _ & HL).
+  exact (mk_labware_mix_inv _ L HL).
+Qed.
+
+Lemma wf_labware_vol_base L : wf_labware L -> vol_base L.
+Proof.
+  intros [(Hg & Hlen & _) (Hmin & _ & HV)]. split; [exact Hg|]. split; [exact Hlen|].
+  split; [exact Hmin|]. eapply Forall_impl; [|exact HV]. intros v [H _]. exact H.
+Qed.
+
+Lemma mix_inv_well_sum L i : mix_inv L -> (i < n_wells (lw_geom L))%nat -> 0 <= well_sum L i /\ well_sum L i <= 1.
+Proof.
+  intros [_ (HL & ND & HB & HS)] Hi. split; [|apply HS; exact Hi].
+  unfold well_sum, col_sum. apply Qsum_map_nonneg. intros ka Hka.
+  unfold frac_bounds in HB. rewrite Forall_forall in HB.
+  apply (Forall_nth' (fun f => 0 <= f /\ f <= 1) (snd ka) 0 i (HB ka Hka)). lra.
+Qed.
+
+(** the component amounts an accepted [add] of known compositions brings in *)
+Lemma add_amount L wells vols label cs L' k : mix_inv L -> Forall ocomp_ok cs ->
+  Forall (fun oc => oc <> None) cs ->
+  add L wells vols label (Some cs) = (L', None) ->
+  exists wv, prep_wells_vols wells vols = Ok wv /\ length cs = length wv /\
+    lw_amount L' k == lw_amount L k
+                      + items_amt k (map (fun p => (fst (fst p), snd (fst p), snd p)) (zip wv cs)).
+Proof.
+  intros HI HC HS H. destruct (add_some_ok _ _ _ _ _ _ H) as (wv & L1 & EP & Elen & EAL & EL').
+  exists wv. split; [exact EP|]. split; [exact Elen|]. rewrite EL'.
+  change (lw_amount (log L1 label) k) with (lw_amount L1 k).
+  assert (HB : Forall (fun oc => ocomp_ok oc /\ oc <> None) cs).
+  { apply Forall_forall. intros oc Hoc. rewrite Forall_forall in HC, HS. split; [apply HC|apply HS]; exact Hoc. }
+  pose proof (Forall_zip _ _ wv cs (prep_wells_vols_vol_ok _ _ _ EP) HB) as HZ.
+  apply (add_loop_amount _ k L L1 HI); [| |exact EAL]; apply Forall_map;
+    (eapply Forall_impl; [|exact HZ]); intros [[w x] oc] [H1 [H2 H3]]; cbn [fst snd] in *.
+  - split; assumption.
+  - exact H3.
 Qed.
